@@ -733,7 +733,7 @@ PROPS = {
     'C18': dict(lean_modules=['SfxProps.C18', 'SfxProps.C18Entry', 'SfxProps.C02Spec'], bins=['wrap', 'conv', 'text'], profiles=['chk', 'rel'], gen=gen_C18, thorough_all_fracs=True,
                 rule='programs of 1..12 Wrapping operations (every impl variant is a distinct step kind); de-duplicated per unit; '
                      'non-trivial = some operand magnitude > 1; evaluations counts program x profile executions'),
-    'C10': dict(lean_modules=['SfxProps.C10', 'SfxProps.C10Serde'], bins=['codec'], profiles=['chk', 'rel'], gen=gen_C10x, thorough_all_fracs=True,
+    'C10': dict(lean_modules=['SfxProps.C10', 'SfxProps.C10Serde', 'SfxProps.C10Spec'], bins=['codec'], profiles=['chk', 'rel'], gen=gen_C10x, thorough_all_fracs=True,
                 rule='bit patterns (8-bit exhaustive), their encodings, short/long/random byte strings; de-duplicated per unit; '
                      'non-trivial = operand magnitude > 1 or a byte-string argument',
                 assumptions=['serde: exercised through serde_json 1.0.151 / serde_cbor 0.11.2 with default features only; little-endian target for *_ne_bytes']),
